@@ -88,6 +88,14 @@ func C17() *runner.Property {
 			for i := 0; i < randCancel; i++ {
 				cs = append(cs, runner.MkCase("cancel-random", fmt.Sprint(i), c17Params{Part: "cancel", Seed: r.U64(), Native: i%2 == 0, Point: "", Sub: rng.Pick(r, "ctx-aware", "ctx-ignoring", "ctx-aware-list-fails")}))
 			}
+			// uploads that keep failing with storage_retry_forever: cancellation must still end the loop
+			for _, native := range []bool{true, false} {
+				for _, p := range []string{"send.before_store", "send.after_txn", "", ""} {
+					for _, sub := range []string{"ctx-aware-store-fails-forever", "ctx-ignoring-store-fails-forever"} {
+						cs = append(cs, runner.MkCase("cancel-retry-forever", fmt.Sprintf("native=%v-%s-%s-%d", native, p, sub, len(cs)), c17Params{Part: "cancel", Seed: r.U64(), Native: native, Point: p, Nth: 1, Sub: sub}))
+					}
+				}
+			}
 			for i := 0; i < nt; i++ {
 				cs = append(cs, runner.MkCase("topics", fmt.Sprint(i), c17Params{Part: "topics", Seed: r.U64(), Count: 25}))
 			}
@@ -399,8 +407,14 @@ func runCancel(p c17Params, env *runner.Env, res *runner.Result) {
 	if listFails {
 		failList = 1
 	}
+	storeFailsForever := strings.HasSuffix(p.Sub, "store-fails-forever")
+	var storeCalls int32
 	b.SetHook(func(op, name string, nth int) bucket.Decision {
 		if op == "List" && atomic.LoadInt32(&failList) == 1 {
+			return bucket.Decision{Err: bucket.ErrInjected}
+		}
+		if op == "Store" && storeFailsForever {
+			atomic.AddInt32(&storeCalls, 1)
 			return bucket.Decision{Err: bucket.ErrInjected}
 		}
 		return bucket.Decision{}
@@ -414,6 +428,9 @@ func runCancel(p c17Params, env *runner.Env, res *runner.Result) {
 	conf := lsx.FastConfig("a")
 	conf.Storage.Cleanup = config.Cleanup{Enabled: true, Interval: time.Millisecond, MustKeepInterval: time.Hour, RemoveOldInstancesInterval: time.Hour}
 	conf.Sweeper = config.Sweeper{Enabled: p.Native, RetentionDays: 1, Interval: time.Millisecond, FirstInterval: time.Millisecond, LockDuration: time.Millisecond, ReleaseDuration: time.Millisecond}
+	if storeFailsForever {
+		conf.StorageRetryForever = true
+	}
 	x, err := inst.New(env.Dir("cancel"), b, "db", "a", inst.Opt{Native: p.Native, Conf: &conf})
 	if err != nil {
 		res.Verdict, res.Msg = runner.Inconclusive, err.Error()
@@ -446,6 +463,12 @@ func runCancel(p c17Params, env *runner.Env, res *runner.Result) {
 		delay := time.Duration(r.Intn(30000)) * time.Microsecond
 		go func() {
 			time.Sleep(delay)
+			if storeFailsForever {
+				// cancel while the upload is being retried
+				for k := 0; k < 5000 && atomic.LoadInt32(&storeCalls) < 2; k++ {
+					time.Sleep(200 * time.Microsecond)
+				}
+			}
 			cancelNow()
 		}()
 	}
